@@ -119,7 +119,7 @@ def real_job(spec):
 
 def cli_checks(run, tier, seed):
     """repeated CLI runs of the same command (and other worker counts): byte-identical reports"""
-    d = env.scratch("lcds-c16-cli")
+    d = env.scratch("lcds-c16-cli-%d" % os.getpid())
     jobs = []
     files = [("kernel_x86.s", "zen2", "#"), ("kernel_aarch64.s", "tx2", "//")]
     if tier != "quick":
@@ -178,6 +178,11 @@ def main(tier, seed):
     # ---- R2
     res, stats, _ = lc.replay_graph(run, "MC_LCDSearch_r2_c16", seed, "c16r2", limit=1500 if quick else None)
     run.note("replay", stats)
+    if not quick:
+        # larger kernels / worker counts: behaviours generated by TLC's simulator
+        res2, st2 = lc.replay_simulated(run, "MC_LCDSearch_sim_c16", seed, "c16sim", num=400, depth=150)
+        run.note("replay_simulated", st2)
+        res = res + res2
     cases, meta = [], {}
     for x in res:
         cls = "%s:nw%d:%s" % (x["kid"], x["nw"], "poll" if x["to"] else "nolimit")
